@@ -4,6 +4,7 @@ import (
 	"encoding/json"
 	"fmt"
 	"os"
+	"os/exec"
 	"path/filepath"
 	"sort"
 	"strings"
@@ -24,6 +25,8 @@ type Mutant struct {
 	Expect  string   `json:"expect"`
 	Quick   bool     `json:"quick,omitempty"`
 	Why     string   `json:"why,omitempty"`
+	// Patch names a unified diff (relative to the verification directory) applied instead of Find/Replace.
+	Patch string `json:"patch,omitempty"`
 }
 
 type selfTestResult struct {
@@ -49,6 +52,51 @@ func loadMutants(verif string) ([]Mutant, error) {
 		return nil, err
 	}
 	return ms, nil
+}
+
+// applyPatch applies a unified diff to copies of the files it names and returns them as an overlay.
+func applyPatch(repo, patchFile string) (map[string][]byte, string) {
+	diff, err := os.ReadFile(patchFile)
+	if err != nil {
+		return nil, "cannot read patch"
+	}
+	var files []string
+	for _, l := range strings.Split(string(diff), "\n") {
+		if strings.HasPrefix(l, "+++ b/") {
+			files = append(files, strings.TrimPrefix(l, "+++ b/"))
+		}
+	}
+	if len(files) == 0 {
+		return nil, "patch names no files"
+	}
+	tmp, err := os.MkdirTemp("", "jmescheck-mutant-")
+	if err != nil {
+		return nil, "cannot create a scratch directory"
+	}
+	defer os.RemoveAll(tmp)
+	for _, f := range files {
+		src, err := os.ReadFile(filepath.Join(repo, f))
+		if err != nil {
+			continue // file added by the patch
+		}
+		os.MkdirAll(filepath.Dir(filepath.Join(tmp, f)), 0o755)
+		os.WriteFile(filepath.Join(tmp, f), src, 0o644)
+	}
+	cmd := exec.Command("git", "apply", "--whitespace=nowarn", patchFile)
+	cmd.Dir = tmp
+	cmd.Env = append(os.Environ(), "GIT_CEILING_DIRECTORIES="+filepath.Dir(tmp), "GIT_DIR=/nonexistent")
+	if out, err := cmd.CombinedOutput(); err != nil {
+		return nil, "patch does not apply to the current tree: " + firstLine(string(out))
+	}
+	ov := map[string][]byte{}
+	for _, f := range files {
+		b, err := os.ReadFile(filepath.Join(tmp, f))
+		if err != nil {
+			continue
+		}
+		ov[filepath.Join(repo, f)] = b
+	}
+	return ov, ""
 }
 
 func applyMutant(repo string, m Mutant) (map[string][]byte, string) {
@@ -100,9 +148,27 @@ func runSelfTest(repo, verif, prop, tier string, rules []*Rule, base []Obligatio
 			baseBad[o.Rule+"\x00"+o.Key] = true
 		}
 	}
+	// independently written breaking changes kept under seeded/: each must make at least one rule of its property fire
+	if dirs, err := filepath.Glob(filepath.Join(verif, "seeded", "*", "meta.json")); err == nil {
+		sort.Strings(dirs)
+		for _, mf := range dirs {
+			b, err := os.ReadFile(mf)
+			if err != nil {
+				continue
+			}
+			var meta struct {
+				Property string `json:"property"`
+			}
+			if json.Unmarshal(b, &meta) != nil || meta.Property != prop {
+				continue
+			}
+			d := filepath.Dir(mf)
+			ms = append(ms, Mutant{ID: "seeded/" + filepath.Base(d), Rule: "*", Props: []string{prop}, Patch: filepath.Join(d, "patch.diff"), Expect: "fire", Quick: true})
+		}
+	}
 	var sel []Mutant
 	for _, m := range ms {
-		if !inProp[m.Rule] {
+		if m.Rule != "*" && !inProp[m.Rule] {
 			continue
 		}
 		if len(m.Props) > 0 {
@@ -133,17 +199,31 @@ func runSelfTest(repo, verif, prop, tier string, rules []*Rule, base []Obligatio
 			defer wg.Done()
 			sem <- struct{}{}
 			defer func() { <-sem }()
-			ov, why := applyMutant(repo, m)
+			var ov map[string][]byte
+			var why string
+			if m.Patch != "" {
+				pf := m.Patch
+				if !filepath.IsAbs(pf) {
+					pf = filepath.Join(verif, pf)
+				}
+				ov, why = applyPatch(repo, pf)
+			} else {
+				ov, why = applyMutant(repo, m)
+			}
 			if ov == nil {
 				outs[i] = out{m.ID, "skipped", why}
 				return
 			}
-			rule := ruleByID(m.Rule)
-			if rule == nil {
-				outs[i] = out{m.ID, "skipped", "unknown rule " + m.Rule}
-				return
+			run := rules
+			if m.Rule != "*" {
+				rule := ruleByID(m.Rule)
+				if rule == nil {
+					outs[i] = out{m.ID, "skipped", "unknown rule " + m.Rule}
+					return
+				}
+				run = []*Rule{rule}
 			}
-			r, err := analyse(repo, []*Rule{rule}, LoadOpts{Overlay: ov})
+			r, err := analyse(repo, run, LoadOpts{Overlay: ov})
 			if err != nil {
 				outs[i] = out{m.ID, "skipped", "mutant does not load: " + firstLine(err.Error())}
 				return
@@ -156,7 +236,7 @@ func runSelfTest(repo, verif, prop, tier string, rules []*Rule, base []Obligatio
 			}
 			switch {
 			case m.Expect == "fire" && len(fresh) > 0:
-				outs[i] = out{m.ID, "ok", "fired: " + fresh[0]}
+				outs[i] = out{m.ID, "ok", "fired: " + freshRule(r.Obs, baseBad) + " " + fresh[0]}
 			case m.Expect == "fire":
 				outs[i] = out{m.ID, "missed", "rule " + m.Rule + " stayed silent"}
 			case len(fresh) == 0:
@@ -203,4 +283,13 @@ func firstLine(s string) string {
 		s = s[:300]
 	}
 	return s
+}
+
+func freshRule(obs []Obligation, baseBad map[string]bool) string {
+	for _, o := range obs {
+		if o.Status != Discharged && !baseBad[o.Rule+"\x00"+o.Key] {
+			return o.Rule
+		}
+	}
+	return ""
 }
